@@ -252,7 +252,7 @@ func C10(tier string) int {
 	syms := []string{"s", "i", "nn", "f", "b", "t", "id", "boss", "tags.k", "boss.s", "boss.t", "roles", "reports", "places",
 		"anyOf(roles)", "allOf(roles)", "anyOf(reports.i)", "allOf(reports.t)", "anyOf(reports.b)", "anyOf(reports.tags.k)", "anyOf(places.name)", "anyOf(reports)",
 		"count(roles)", "count(reports)", "count(reports.s)", "count(places.name)", "count(reports.roles)", "count(reports.reports)", "count(reports.boss)", "count(from reports where s = \"a\")", "count(from places where name = \"x\")", "anyOf(s)", "count(s)", "nosuch", "anyOf(nosuch)"}
-	lits := []string{`"a"`, `""`, "5", "-5", "4.5", "1e3", "99999999999999999999", "true", "FALSE", "null", "datetime(2020-01-02T03:04:05Z)", "datetime(2020-13-02T03:04:05Z)"}
+	lits := []string{`"a"`, `""`, "5", "-5", "4.5", "1e3", "1e999", "99999999999999999999", "true", "FALSE", "null", "datetime(2020-01-02T03:04:05Z)", "datetime(2020-13-02T03:04:05Z)"}
 	ops := []string{"=", "!=", "<", "<=", ">", ">=", "contains", "not contains", "icontains", "not icontains"}
 	var sentences []string
 	for _, sy := range syms {
@@ -261,10 +261,14 @@ func C10(tier string) int {
 				sentences = append(sentences, sy+" "+op+" "+l)
 			}
 		}
-		for _, arr := range []string{`["a"]`, `["a", "b"]`, `[5]`, `[5, 4.5]`, `[4.5]`, `[datetime(2020-01-02T03:04:05Z)]`, `[]`, `["a", 5]`, `[true]`} {
+		for _, arr := range []string{`["a"]`, `["a", "b"]`, `[5]`, `[5, 4.5]`, `[4.5]`, `[datetime(2020-01-02T03:04:05Z)]`, `[]`, `["a", 5]`, `[true]`,
+			// literals that lex but cannot be converted, in every position of an array
+			`[5, 1e999]`, `[1e999, 5]`, `[5, 99999999999999999999]`, `[99999999999999999999]`, `[4.5, 1e999, 5]`,
+			`[datetime(2020-01-02T03:04:05Z), datetime(2020-13-02T03:04:05Z)]`, `[datetime(2020-13-02T03:04:05Z), datetime(2020-01-02T03:04:05Z)]`, `[datetime(2020-02-30T00:00:00Z)]`} {
 			sentences = append(sentences, sy+" in "+arr, sy+" not in "+arr)
 		}
-		for _, bounds := range [][2]string{{"4", "6"}, {"4.5", "6"}, {"6", "4"}, {"datetime(2020-01-02T03:04:05Z)", "datetime(2021-01-02T03:04:05Z)"}, {"4", "datetime(2021-01-02T03:04:05Z)"}, {`"a"`, `"b"`}} {
+		for _, bounds := range [][2]string{{"4", "6"}, {"4.5", "6"}, {"6", "4"}, {"datetime(2020-01-02T03:04:05Z)", "datetime(2021-01-02T03:04:05Z)"}, {"4", "datetime(2021-01-02T03:04:05Z)"}, {`"a"`, `"b"`},
+			{"4", "1e999"}, {"1e999", "4"}, {"datetime(2020-01-02T03:04:05Z)", "datetime(2020-13-02T03:04:05Z)"}, {"datetime(2020-13-02T03:04:05Z)", "datetime(2020-01-02T03:04:05Z)"}} {
 			sentences = append(sentences, sy+" between "+bounds[0]+" and "+bounds[1], sy+" not between "+bounds[0]+" and "+bounds[1])
 		}
 		sentences = append(sentences, sy, "not "+sy, "isEmpty("+sy+")", "not isEmpty("+sy+")", "true sort by "+sy, "true sort by "+sy+" desc", sy+" and "+sy, "isEmpty(from "+sy+" where true)", "count(from "+sy+" where id = \"e1\") > 0")
